@@ -31,6 +31,10 @@ def snap_module(mod, groups=GROUPS_MODULE, prefix="", depth=0):
             out.append((prefix + a, getattr(mod, a)))
         out.append((prefix + "color", tuple(mod.color)))
         out.append((prefix + "visualization", mod.visualization.value))
+    if "common_synth" in groups:  # what a .sunsynth file stores (no x/y/layer/visualization)
+        for a in ("name", "flags", "scale", "mod_finetune", "mod_relative_note"):
+            out.append((prefix + a, getattr(mod, a)))
+        out.append((prefix + "color", tuple(mod.color)))
     if "midi" in groups:
         for a in ("midi_in_always", "midi_in_channel", "midi_out_name", "midi_out_channel", "midi_out_bank", "midi_out_program"):
             out.append((prefix + a, getattr(mod, a)))
